@@ -183,6 +183,40 @@ def run(ctx):
             l1 += 1
             ctx.violation("c11-lessthan-instantiated-twice %s" % c, {"stage": "L1 every instantiation of the range check must qualify", "input": rq, "sizes": [k1, k2],
                                                                      "implementation_flags": flagged, "specified": want, "error": ir.get("error"), "broken": None})
+    # ---- shapes of the second audit: a range-check component that is something else on another branch (f3), the inputs of LessThan given as
+    #      one array (f4), an element of a component array addressed by the loop variable after the loop (f2)
+    reqs, meta = [], []
+    for c in CURVES:
+        small = 8
+        big = {"BN254": 254, "BLS12_381": 255, "GOLDILOCKS": 64}[c]
+        head = "template T(n) { signal input a; signal input b; signal input x[2]; signal output o; component lt = LessThan(8); "
+        shapes = [
+            ("other-template-then", head + "component rc; component rb = Num2Bits(%d); if (n == 1) { rc = Num2Bits_strict(); } else { rc = Num2Bits(%d); } "
+             "rc.in <== a; rb.in <== b; lt.in[0] <== a; lt.in[1] <== b; o <== lt.out; }" % (small, small), 1, 1),
+            ("other-template-else", head + "component rc; component rb = Num2Bits(%d); if (n == 1) { rc = Num2Bits(%d); } else { rc = Other(%d); } "
+             "rc.in <== a; rb.in <== b; lt.in[0] <== a; lt.in[1] <== b; o <== lt.out; }" % (small, small, small), 1, 1),
+            ("array-input-unchecked", head + "lt.in <== [a, b]; o <== lt.out; }", 2, 2),
+            ("array-input-one-checked", head + "component rb = Num2Bits(%d); rb.in <== b; lt.in <== [a, b]; o <== lt.out; }" % small, 1, 1),
+            ("array-input-checked", head + "component ra = Num2Bits(%d); component rb = Num2Bits(%d); ra.in <== a; rb.in <== b; lt.in <== [a, b]; o <== lt.out; }" % (small, small), 0, 0),
+            ("array-input-big", head + "component ra = Num2Bits(%d); component rb = Num2Bits(%d); ra.in <== a; rb.in <== b; lt.in <== [a, b]; o <== lt.out; }" % (big, small), 1, 1),
+            # nb[0], nb[1] are small range checks, nb[2] is too wide; after the loop `i` is 2
+            ("loop-index-after-loop", head + "component nb[3]; component rb = Num2Bits(%d); var i = 0; while (i < 2) { nb[i] = Num2Bits(%d); nb[i].in <== x[i]; i++; } "
+             "nb[2] = Num2Bits(%d); nb[i].in <== a; rb.in <== b; lt.in[0] <== a; lt.in[1] <== b; o <== lt.out; }" % (small, small, big), 1, 1),
+            # all elements alike: tracking a component array is allowed (0), declining to is as well (1)
+            ("loop-index-uniform", head + "component nb[3]; component rb = Num2Bits(%d); var i = 0; while (i < 2) { nb[i] = Num2Bits(%d); nb[i].in <== x[i]; i++; } "
+             "nb[2] = Num2Bits(%d); nb[i].in <== a; rb.in <== b; lt.in[0] <== a; lt.in[1] <== b; o <== lt.out; }" % (small, small, small), 0, 1),
+        ]
+        for nm, src, lo, hi in shapes:
+            reqs.append(json.dumps({"src": src, "curve": c}))
+            meta.append((c, nm, lo, hi))
+    for (c, nm, lo, hi), i, rq in zip(meta, vlib.run_harness("defpasses", reqs), reqs):
+        evals += 1
+        ir = json.loads(i) if i.startswith("{") else {"error": i}
+        flagged = sum(1 for r in ir.get("reports", []) if r["id"] == "CS0014")
+        if "error" in ir or not (lo <= flagged <= hi):
+            l1 += 1
+            ctx.violation("c11-lessthan-shape %s %s" % (nm, c), {"stage": "L1 an input counts as range-checked only if the Num2Bits it really feeds qualifies", "input": rq,
+                                                                 "implementation_flags": flagged, "specified": [lo, hi], "error": ir.get("error"), "broken": None})
     # ---- the instantiation in `component main = T(...)` (audit C11 f2): it is an instantiation like any other
     with vlib.Workdir("c11m") as wdm:
         mains = [("BLS12_381", "Sign", "()", "pragma circom 2.0.0;\ntemplate Sign() { signal input in[254]; signal output sign; sign <== in[0]; }\n", "CS0016"),
